@@ -5,11 +5,13 @@ CONSTANTS
   Lits2 <- LitsTwo
   UnOps <- UnExact
   BinOps <- BinAll
-  Families <- FamTies
+  Families <- FamTiesSpell
   SoupAlphabet <- SoupSmall
   MaxSoup = 0
 INVARIANT EmitTie
 INVARIANT LadderComputesFold
 INVARIANT ReferenceComputesFold
 INVARIANT RoundIsNearestAwayFromZero
+INVARIANT SpellingsDenoteTheirNumber
+INVARIANT ValueIndependentOfSpelling
 CHECK_DEADLOCK FALSE
